@@ -16,6 +16,7 @@
 -/
 import Purr.Lemmas.TraceIdxL
 import Purr.Lemmas.TraceEndsL
+import Purr.Lemmas.TokOrderL
 import Purr.Props.C02
 import Purr.Lemmas.TraceL
 import Purr.Lemmas.ProtoL
@@ -136,6 +137,39 @@ theorem trace_atom_is_its_token (s : Str) (t : TState) (ht : trace? s = some t) 
         rw [hk, atomKinds_written, ← erase_readL, writtenAtoms_erase, List.map_map, List.getElem?_map, hp]; rfl
       rw [List.getElem?_map] at this
       exact this
+
+/-- ATOMS ARE NUMBERED IN ORDER OF APPEARANCE, AND THEIR RANGES DO NOT OVERLAP: for `i < j` the token of atom `i` ends
+    at or before the start of the token of atom `j` -/
+theorem trace_atoms_in_string_order (s : Str) (t : TState) (ht : trace? s = some t) (i j : Nat) (hij : i < j)
+    (a b a' b' : Nat) (hi : t.atom i = some (a, b)) (hj : t.atom j = some (a', b')) : b ≤ a' := by
+  unfold trace? at ht
+  obtain ⟨hat, _⟩ := trun_atoms s.length _ _ _ ht
+  simp only [TState.init, List.nil_append] at hat
+  unfold TState.atom at hi hj
+  rw [hat, atomSpans_eq, List.getElem?_map] at hi hj
+  obtain ⟨hbound, hpw⟩ := atomToks_in_order (readL s).1 s.length (runL_desc .needRoot [0] s)
+  cases hp : (atomToks (readL s).1)[i]? with
+  | none => rw [hp] at hi; cases hi
+  | some p =>
+    cases hq : (atomToks (readL s).1)[j]? with
+    | none => rw [hq] at hj; cases hj
+    | some q =>
+      rw [hp] at hi; rw [hq] at hj
+      simp only [Option.map_some, Option.some.injEq, Prod.mk.injEq] at hi hj
+      have hrel : q.2.2.1 ≤ p.2.2.2 := by
+        have hi' : i < (atomToks (readL s).1).length := by
+          apply Nat.lt_of_not_le; intro hge
+          rw [List.getElem?_eq_none_iff.mpr hge] at hp; cases hp
+        have hj' : j < (atomToks (readL s).1).length := by
+          apply Nat.lt_of_not_le; intro hge
+          rw [List.getElem?_eq_none_iff.mpr hge] at hq; cases hq
+        have := List.pairwise_iff_getElem.mp hpw i j hi' hj' hij
+        rw [List.getElem?_eq_getElem hi'] at hp
+        rw [List.getElem?_eq_getElem hj'] at hq
+        cases hp; cases hq
+        exact this
+      have hqb := hbound q (List.mem_of_getElem? hq)
+      omega
 
 /-- THE k-TH RING-CLOSURE TOKEN: entry `k` of the ring-closure table is the range of the token of the `k`-th join the
     reader reported, and that token reads as exactly the ring number reported -/
